@@ -7,6 +7,7 @@ import json
 import os
 import random
 import re
+import shutil
 import warnings
 
 from .. import fixtures, gendocs, structure
@@ -15,7 +16,7 @@ from ..core import Machinery
 
 def pk_cfg(bug="none", maxnew=3):
     return ("CONSTANTS SrcIds = {1, 2, 3}\nSrcFiles = {50}\nDangling = {77}\nMaxNew = %d\nBug = \"%s\"\nSPECIFICATION Spec\nINVARIANT FreshIds\n"
-            "INVARIANT DistinctIds\nINVARIANT Listed\nINVARIANT Closed\nCHECK_DEADLOCK FALSE\n" % (maxnew, bug))
+            "INVARIANT DistinctIds\nINVARIANT Listed\nINVARIANT Closed\nINVARIANT DataClosed\nCHECK_DEADLOCK FALSE\n" % (maxnew, bug))
 
 
 def save_case(job):
@@ -68,15 +69,18 @@ def save_case(job):
         return [{"label": "%s(build failed: %s)" % (kind, type(e).__name__), "skip": True}]
     src_abs = structure.abstract(src)
     p1 = base + "-1.numbers"
+    # the form of the saved package (Document.save's package option): every third case writes the first save as a package folder
+    # (archives in Index.zip, other members as loose files), every third the second one
+    forms = {0: ("zip", "zip"), 1: ("package", "zip"), 2: ("zip", "package")}[idx % 3]
     for cycle in (1, 2):
         exc = ""
         try:
-            doc.save(p1 if cycle == 1 else base + "-2.numbers")
+            doc.save(p1 if cycle == 1 else base + "-2.numbers", package=(forms[cycle - 1] == "package"))
         except Exception as e:  # noqa: BLE001
             exc = "%s:%s" % (type(e).__name__, str(e)[:80])
         saved = p1 if cycle == 1 else base + "-2.numbers"
         ev = structure.save_event(src_abs, saved, exc)
-        ev["label"] = "%s#%d" % (label, cycle)
+        ev["label"] = "%s#%d%s" % (label, cycle, "p" if forms[cycle - 1] == "package" else "")
         events.append(ev)
         if exc or ev["reopen"]:
             break
@@ -87,7 +91,10 @@ def save_case(job):
             except Exception:  # noqa: BLE001
                 break
     for f in glob.glob(base + "-*"):
-        os.remove(f)
+        if os.path.isdir(f):
+            shutil.rmtree(f)
+        else:
+            os.remove(f)
     return events
 
 
@@ -116,6 +123,10 @@ def judge(ctx, events, count=True):
                     detail = str([(i, [t for t in ts if t not in ok]) for i, ts in e["refs"] if i in touched and any(t not in ok for t in ts)][:4])
                 elif v == "file-not-listed":
                     detail = str([f for f in e["addedFiles"] if f not in e["componentFiles"]][:4])
+                elif v == "dangling-data-reference":
+                    detail = str([(i, [d for d in ds if d not in e["dataIds"]]) for i, ds in e["dataRefs"]][:4])
+                elif v == "data-file-missing":
+                    detail = str(e["dataFilesMissing"][:6])
                 elif v == "tile-geometry":
                     detail = str([(t[0], t[1], [(x[0], [r for r in x[1] if r[5:] != [1, 1, 1] or r[1] != r[2] or r[3] != t[1] or r[4] != 1][:2]) for x in t[2]][:3]) for t in e["tables"]][:2])[:400]
                 ctx.fail({"engine": "trace", "clause": v, "label": e["label"].split("#")[0], "cycle": e["label"].split("#")[-1], "exc": (e["exc"] or e["reopen"]).split(":")[0]},
@@ -131,7 +142,8 @@ def run(ctx):
                        "Apple Numbers as consumer is out of reach: the invariants are the clauses the property lists"]
     ctx.stage("model-check")
     ctx.tlc("Package", pk_cfg(), what="MC_Package", timeout=1800)
-    for bug, inv in (("ReuseId", "DistinctIds"), ("ForgetComponent", "Listed"), ("StaleHighWater", "FreshIds"), ("DanglingRef", "Closed")):
+    for bug, inv in (("ReuseId", "DistinctIds"), ("ForgetComponent", "Listed"), ("StaleHighWater", "FreshIds"), ("DanglingRef", "Closed"),
+                     ("DataNotRegistered", "DataClosed"), ("DataFileNotStored", "DataClosed")):
         ctx.tlc("Package", pk_cfg(bug), what="Bug_%s" % bug, expect_violation=inv, count=False)
     ctx.stage("record")
     fx = fixtures.readable_fixtures(ctx.workers) + [fixtures.TEMPLATE]
